@@ -68,6 +68,11 @@ func Walk(ctx context.Context, fileSystem fs.FS, prefix, delimiter, marker strin
 		}
 	}
 
+	// nothing below a skipped directory is listed, whatever the prefix
+	if contains(strings.SplitN(root, "/", 2)[0], skipdirs) {
+		return WalkResults{}, nil
+	}
+
 	err := fs.WalkDir(fileSystem, root, func(path string, d fs.DirEntry, err error) error {
 		if err != nil {
 			return err
